@@ -92,6 +92,8 @@ theorem proc_take_drop (ctx : Ctx) (loc : Env) (k : Nat) (t : Tmpl) :
     | task h x c nx => simp only [Tmpl.take, Tmpl.drop, proc]; rw [Out.seq_assoc, ih]
     | call h x c nx => simp only [Tmpl.take, Tmpl.drop, proc]; rw [Out.seq_assoc, ih]
     | iter r v b nx => simp only [Tmpl.take, Tmpl.drop, proc]; rw [Out.seq_assoc, ih]
+    | incl h i d nx => simp only [Tmpl.take, Tmpl.drop, proc]; rw [Out.seq_assoc, ih]
+    | doc f h kids nx => simp only [Tmpl.take, Tmpl.drop, proc]; rw [Out.seq_assoc, ih]
 
 /-! ## the small-step machine -/
 
@@ -121,6 +123,12 @@ theorem finish_fire (ctx : Ctx) (loc : Env) (next : PT) (t : Tmpl) :
   | iter r v b nx =>
     simp only [fire, proc]
     cases evalRange ctx.lookRange r <;> simp [finish, Out.seq_assoc, finish_expandPend]
+  | incl h inc docs nx =>
+    simp only [fire, proc]
+    cases inclHdr cfg ctx loc h inc docs <;> simp [finish, Out.seq_assoc]
+  | doc f h kids nx =>
+    simp only [fire, proc]
+    cases docHdr ctx f h <;> simp [finish, Out.seq_assoc]
 
 /-- Invariant of the machine: no scheduler decision changes the final outcome. -/
 theorem finish_stepAt (s : PT) (p : List Dir) (k : Option Nat) : finish cfg (stepAt cfg s p k) = finish cfg s := by
@@ -248,6 +256,33 @@ theorem procSeq_eq (ctx : Ctx) (loc : Env) (t : Tmpl) : procSeq cfg ctx loc t = 
       generalize proc cfg ctx loc nx = rr
       cases k with | mk ke kf kv => cases rr with | mk re rf rv =>
       cases ke <;> cases re <;> cases hkp : iterKeep cfg (rawEnabled b) kf <;> simp [Out.toExc, seqCat, iterOut, hkp]
+  | incl h inc docs nx ihd ihn =>
+    simp only [procSeq, proc]
+    cases hh : inclHdr cfg ctx loc h inc docs with
+    | error => simp [Out.toExc, Out.seq]
+    | masked =>
+      simp only [ihn]
+      generalize proc cfg ctx loc nx = r
+      cases r with | mk re rf rv =>
+      cases hm : cfg.maskEnabledError <;> cases re <;> simp [maskedOut, hm, Out.toExc, Out.seq]
+    | disabled => simp [ihn]
+    | ok i cw ex => simp only [ihd, ihn, toExc_seq]
+  | doc f h kids nx ihk ihn =>
+    simp only [procSeq, proc]
+    cases hh : docHdr ctx f h with
+    | error => simp [Out.toExc, Out.seq]
+    | masked =>
+      simp only [ihn]
+      generalize proc cfg ctx loc nx = r
+      cases r with | mk re rf rv =>
+      cases hm : cfg.maskEnabledError <;> cases re <;> simp [maskedOut, hm, Out.toExc, Out.seq]
+    | disabled => simp [ihn]
+    | ok i c' ex =>
+      simp only [ihk, ihn, toExc_seq]
+      generalize proc cfg c' [] kids = k
+      generalize proc cfg ctx loc nx = r
+      cases k with | mk ke kf kv => cases r with | mk re rf rv =>
+      cases ke <;> cases re <;> simp [Out.toExc, seqCat, aggOut_f]
 
 theorem loadSeq_eq (t : Tmpl) : loadSeq cfg t = load cfg t := by
   simp only [loadSeq, load, procSeq_eq, Out.loaded, Out.toExc]
@@ -340,8 +375,9 @@ theorem iterOut_toI (raw : Bool) (k : Out) (h : (iterOut cfg raw k).ev.none = tr
 
 /-- When none of the three recorded behaviours occurs, the code's loader computes exactly
     what the ideal loader computes (after `GetRoles` made the iterators transparent). -/
-theorem proc_ideal (t : Tmpl) : ∀ (ctx : Ctx) (loc : Env),
+theorem proc_ideal (hl : cfg.inclPublishLate = false) (t : Tmpl) : ∀ (ctx : Ctx) (loc : Env),
     (proc cfg ctx loc t).ev.none = true → ideal ctx loc t = (proc cfg ctx loc t).toI := by
+  have hincl : inclHdr cfg = inclHdrP true := by simp [inclHdr, hl]
   induction t with
   | nil => intro ctx loc _; rfl
   | agg h kids nx ihk ihn =>
@@ -397,9 +433,45 @@ theorem proc_ideal (t : Tmpl) : ∀ (ctx : Ctx) (loc : Env),
       have hk := iterOut_toI _ _ hev.1
       simp only []
       rw [hfold vals hk.1, hk.2]
+  | incl h inc docs nx ihd ihn =>
+    intro ctx loc hev
+    simp only [proc, Out.seq_ev, Events.none_or, Bool.and_eq_true] at hev
+    simp only [ideal, proc, toI_seq, ihn ctx loc hev.2]
+    congr 1
+    rw [hincl] at hev ⊢
+    cases hh : inclHdrP true ctx loc h inc docs with
+    | error => rfl
+    | masked =>
+      rw [hh] at hev
+      cases hm : cfg.maskEnabledError with
+      | true => simp [maskedOut_legacy hm, Events.none] at hev
+      | false => simp [maskedOut_code hm, Out.toI, Tree.flatten]
+    | disabled => rfl
+    | ok i cw ex =>
+      rw [hh] at hev
+      exact ihd cw [] hev.1
+  | doc f h kids nx ihk ihn =>
+    intro ctx loc hev
+    simp only [proc, Out.seq_ev, Events.none_or, Bool.and_eq_true] at hev
+    simp only [ideal, proc, toI_seq, ihn ctx loc hev.2]
+    congr 1
+    cases hh : docHdr ctx f h with
+    | error => rfl
+    | masked =>
+      rw [hh] at hev
+      cases hm : cfg.maskEnabledError with
+      | true => simp [maskedOut_legacy hm, Events.none] at hev
+      | false => simp [maskedOut_code hm, Out.toI, Tree.flatten]
+    | disabled => rfl
+    | ok i c' ex =>
+      rw [hh] at hev
+      have hk := aggOut_toI i (proc cfg c' [] kids) hev.1
+      simp only []
+      rw [ihk c' [] hk.1, hk.2]
 
-theorem load_ideal (t : Tmpl) (h : (proc cfg {} [] t).ev.none = true) : load cfg t = idealLoad t := by
-  simp only [load, idealLoad, proc_ideal t {} [] h, Out.loaded, IOut.loaded, Out.toI]
+theorem load_ideal (hl : cfg.inclPublishLate = false) (t : Tmpl) (h : (proc cfg {} [] t).ev.none = true) :
+    load cfg t = idealLoad t := by
+  simp only [load, idealLoad, proc_ideal hl t {} [] h, Out.loaded, IOut.loaded, Out.toI]
   rfl
 
 /-! ## one header -/
@@ -436,6 +508,27 @@ theorem procHdr_masked {ctx : Ctx} {loc : Env} {h : Hdr} {x : List Field}
     (he : evalField (ctx.look loc) h.enabled = none) :
     procHdr ctx loc h x = .masked := by
   unfold procHdr; simp [he]
+
+/-- the root of an included document is processed by the ordinary role header, with the include
+    role's resolved name in the name field and no Locals -/
+theorem docHdr_ok {ctx : Ctx} {f : String} {h : Hdr} {i : Info} {c' : Ctx} {ex : List String}
+    (hh : docHdr ctx f h = .ok i c' ex) :
+    ∃ nm, ctx.want = some (f, nm) ∧ procHdr ctx [] { h with name := [.text nm] } [] = .ok i c' ex := by
+  unfold docHdr at hh
+  cases hw : ctx.want with
+  | none => simp [hw] at hh
+  | some p =>
+    obtain ⟨f', nm⟩ := p
+    simp only [hw] at hh
+    by_cases hf : (f' == f) = true
+    · simp only [hf, if_true] at hh
+      have : f' = f := by simpa using hf
+      subst this
+      exact ⟨nm, rfl, hh⟩
+    · simp [hf] at hh
+
+theorem docHdr_none {ctx : Ctx} (f : String) (h : Hdr) (hw : ctx.want = none) : docHdr ctx f h = .disabled := by
+  simp [docHdr, hw]
 
 /-! ## no empty aggregators -/
 
@@ -497,6 +590,18 @@ theorem proc_noEmptyAgg (t : Tmpl) : ∀ (ctx : Ctx) (loc : Env), noEmptyAgg (pr
       split
       · simp [noEmptyAgg, hfold]
       · rfl
+  | incl h inc docs nx ihd ihn =>
+    intro ctx loc
+    simp only [proc, Out.seq_f, noEmptyAgg_append, ihn, Bool.and_true]
+    cases inclHdr cfg ctx loc h inc docs with
+    | ok i cw ex => exact ihd cw []
+    | _ => first | rfl | (simp <;> rfl)
+  | doc f h kids nx ihk ihn =>
+    intro ctx loc
+    simp only [proc, Out.seq_f, noEmptyAgg_append, ihn, Bool.and_true]
+    cases docHdr ctx f h with
+    | ok i c' ex => exact aggOut_noEmptyAgg i _ (ihk c' [])
+    | _ => first | rfl | (simp <;> rfl)
 
 theorem idealAgg_ok (i : Info) (k : IOut) (h : noEmptyAgg k.f = true ∧ noIter k.f = true) :
     noEmptyAgg (idealAgg i k).f = true ∧ noIter (idealAgg i k).f = true := by
@@ -537,6 +642,18 @@ theorem ideal_wf (t : Tmpl) : ∀ (ctx : Ctx) (loc : Env),
       | cons a as iha =>
         simp only [List.foldr_cons, noEmptyAgg_append, noIter_append, iha.1, iha.2, (ihb ctx _).1, (ihb ctx _).2,
           Bool.and_true, and_self]
+  | incl h inc docs nx ihd ihn =>
+    intro ctx loc
+    simp only [ideal, IOut.seq, noEmptyAgg_append, noIter_append, (ihn ctx loc).1, (ihn ctx loc).2, Bool.and_true]
+    cases inclHdrP true ctx loc h inc docs with
+    | ok i cw ex => exact ihd cw []
+    | _ => exact ⟨rfl, rfl⟩
+  | doc f h kids nx ihk ihn =>
+    intro ctx loc
+    simp only [ideal, IOut.seq, noEmptyAgg_append, noIter_append, (ihn ctx loc).1, (ihn ctx loc).2, Bool.and_true]
+    cases docHdr ctx f h with
+    | ok i c' ex => exact idealAgg_ok i _ (ihk c' [])
+    | _ => exact ⟨rfl, rfl⟩
 
 @[simp] theorem Events.or_hollow (a b : Events) : (a.or b).hollow = (a.hollow || b.hollow) := rfl
 
@@ -601,6 +718,20 @@ theorem proc_flat_noEmptyAgg (t : Tmpl) : ∀ (ctx : Ctx) (loc : Env),
         simp only [iterOut, hkp, if_true] at hk ⊢
         simp [Tree.flatten, hfold vals hk]
       | false => simp [iterOut, hkp, Tree.flatten, noEmptyAgg]
+  | incl h inc docs nx ihd ihn =>
+    intro ctx loc hev
+    simp only [proc, Out.seq_ev, Events.or_hollow, Bool.or_eq_false_iff] at hev
+    simp only [proc, Out.seq_f, Tree.flatten_append, noEmptyAgg_append, ihn ctx loc hev.2, Bool.and_true]
+    cases hh : inclHdr cfg ctx loc h inc docs with
+    | ok i cw ex => rw [hh] at hev; exact ihd cw [] hev.1
+    | _ => first | rfl | (simp <;> rfl)
+  | doc f h kids nx ihk ihn =>
+    intro ctx loc hev
+    simp only [proc, Out.seq_ev, Events.or_hollow, Bool.or_eq_false_iff] at hev
+    simp only [proc, Out.seq_f, Tree.flatten_append, noEmptyAgg_append, ihn ctx loc hev.2, Bool.and_true]
+    cases hh : docHdr ctx f h with
+    | ok i c' ex => rw [hh] at hev; exact aggOut_flat i _ hev.1 (ihk c' [])
+    | _ => first | rfl | (simp <;> rfl)
 
 /-! ## iterators -/
 
@@ -640,6 +771,8 @@ theorem single_infos (ctx : Ctx) (var v : String) (body : Tmpl) (hs : single bod
   cases body with
   | nil => simp [single] at hs
   | iter r v2 b n => simp [single] at hs
+  | incl h inc d n => simp [single] at hs
+  | doc f h k n => simp [single] at hs
   | agg h kids n =>
     cases n <;> simp [single] at hs
     simp only [proc, Out.seq_empty]
@@ -773,6 +906,25 @@ theorem proc_allEnabled (t : Tmpl) : ∀ (ctx : Ctx) (loc : Env), allEnabled (pr
       split
       · simp [allEnabled, hfold]
       · rfl
+  | incl h inc docs nx ihd ihn =>
+    intro ctx loc
+    simp only [proc, Out.seq_f, happ, ihn, Bool.and_true]
+    cases inclHdr cfg ctx loc h inc docs with
+    | ok i cw ex => exact ihd cw []
+    | _ => first | rfl | (simp <;> rfl)
+  | doc f h kids nx ihk ihn =>
+    intro ctx loc
+    simp only [proc, Out.seq_f, happ, ihn, Bool.and_true]
+    cases hh : docHdr ctx f h with
+    | ok i c' ex =>
+      obtain ⟨nm, _, hp⟩ := docHdr_ok hh
+      dsimp only
+      by_cases hf : (proc cfg c' [] kids).f = .nil
+      · have : aggOut i (proc cfg c' [] kids) = ⟨(proc cfg c' [] kids).err, .nil, (proc cfg c' [] kids).ev⟩ := by
+          unfold aggOut; rw [hf]
+        rw [this]; rfl
+      · simp [aggOut_of_ne i _ hf, allEnabled, hen hp, ihk c' []]
+    | _ => first | rfl | (simp <;> rfl)
 
 theorem allEnabled_flatten (f : Tree) (h : allEnabled f = true) : allEnabled f.flatten = true := by
   have happ : ∀ a b : Tree, allEnabled (a ++ b) = (allEnabled a && allEnabled b) := by
@@ -808,11 +960,17 @@ theorem body_disabled (ctx : Ctx) (loc : Env) (b : Tmpl)
            | .agg h _ .nil => isLiteral h.enabled
            | .task h _ _ .nil => isLiteral h.enabled
            | .call h _ _ .nil => isLiteral h.enabled
+           | .incl h _ _ .nil => isLiteral h.enabled
            | _ => false) = true)
     (hr : rawEnabled b = false) : proc cfg ctx loc b = Out.empty := by
   cases b with
   | nil => rfl
   | iter r v b n => simp at hl
+  | doc f h k n => simp at hl
+  | incl h inc d n =>
+    cases n <;> simp at hl
+    simp only [rawEnabled] at hr
+    simp [proc, inclHdr, inclHdrP, procHdr_disabled (evalField_literal _ _ hl) hr]
   | agg h k n =>
     cases n <;> simp at hl
     simp only [rawEnabled] at hr
@@ -885,6 +1043,26 @@ theorem proc_no_iterDrop (t : Tmpl) : ∀ (ctx : Ctx) (loc : Env),
             cases hf : (vals.foldr (fun v' acc => (proc cfg ctx [(v, v')] b).seq acc) Out.empty).f <;>
               simp_all [Tree.isNil, hasNode]
         simp [iterOut, hkp, hfold, hn]
+  | incl h inc docs nx ihd ihn =>
+    intro ctx loc hl
+    simp only [iterEnabledLiteral, Bool.and_eq_true] at hl
+    simp only [proc, Out.seq_ev, Events.or_iterDrop, ihn ctx loc hl.2, Bool.or_false]
+    cases inclHdr cfg ctx loc h inc docs with
+    | ok i cw ex => exact ihd cw [] hl.1
+    | _ => first | rfl | (simp <;> rfl)
+  | doc f h kids nx ihk ihn =>
+    intro ctx loc hl
+    simp only [iterEnabledLiteral, Bool.and_eq_true] at hl
+    simp only [proc, Out.seq_ev, Events.or_iterDrop, ihn ctx loc hl.2, Bool.or_false]
+    cases docHdr ctx f h with
+    | ok i c' ex =>
+      dsimp only
+      by_cases hf : (proc cfg c' [] kids).f = .nil
+      · have : aggOut i (proc cfg c' [] kids) = ⟨(proc cfg c' [] kids).err, .nil, (proc cfg c' [] kids).ev⟩ := by
+          unfold aggOut; rw [hf]
+        rw [this]; exact ihk c' [] hl.1
+      · rw [aggOut_of_ne i _ hf]; simp [ihk c' [] hl.1]
+    | _ => first | rfl | (simp <;> rfl)
 
 /-! ## the code as it is: none of the three recorded behaviours can occur -/
 
@@ -956,6 +1134,22 @@ theorem proc_code_solid (hc : cfg.iterByRawText = false) (t : Tmpl) :
       generalize (vals.foldr (fun v' acc => (proc cfg ctx [(v, v')] b).seq acc) Out.empty).f = kf at hfold
       unfold solid at hfold ⊢
       cases hk : kf.isNil <;> simp_all [hasNode, Tree.isNil]
+  | incl h inc docs nx ihd ihn =>
+    intro ctx loc
+    simp only [proc, Out.seq_f]
+    refine solid_append ?_ (ihn ctx loc)
+    cases inclHdr cfg ctx loc h inc docs with
+    | ok i cw ex => exact ihd cw []
+    | masked => simp [solid_nil]
+    | _ => exact solid_nil
+  | doc f h kids nx _ ihn =>
+    intro ctx loc
+    simp only [proc, Out.seq_f]
+    refine solid_append ?_ (ihn ctx loc)
+    cases docHdr ctx f h with
+    | ok i c' ex => exact aggOut_solid i _
+    | masked => simp [solid_nil]
+    | _ => exact solid_nil
 
 /-- The code as it is shows none of the three behaviours, whatever the template. -/
 theorem proc_code_ev (hm : cfg.maskEnabledError = false) (hc : cfg.iterByRawText = false) (t : Tmpl) :
@@ -996,12 +1190,34 @@ theorem proc_code_ev (hm : cfg.maskEnabledError = false) (hc : cfg.iterByRawText
       cases hk : k.f with
       | nil => simp [iterOut, iterKeep, hc, hk, Tree.isNil, hasNode, hfold]
       | _ => simp [iterOut, iterKeep, hc, hk, Tree.isNil, hfold]
+  | incl h inc docs nx ihd ihn =>
+    intro ctx loc
+    simp only [proc, Out.seq_ev, ihn ctx loc, Events.or_empty]
+    cases inclHdr cfg ctx loc h inc docs with
+    | ok i cw ex => exact ihd cw []
+    | masked => simp [maskedOut_code hm]
+    | _ => rfl
+  | doc f h kids nx ihk ihn =>
+    intro ctx loc
+    simp only [proc, Out.seq_ev, ihn ctx loc, Events.or_empty]
+    cases docHdr ctx f h with
+    | ok i c' ex =>
+      dsimp only
+      by_cases hf : (proc cfg c' [] kids).f = .nil
+      · have : aggOut i (proc cfg c' [] kids) = ⟨(proc cfg c' [] kids).err, .nil, (proc cfg c' [] kids).ev⟩ := by
+          unfold aggOut; rw [hf]
+        rw [this]; exact ihk c' []
+      · have hs := proc_code_solid hc kids c' []
+        unfold solid at hs
+        rw [aggOut_of_ne i _ hf, ihk c' [], hs, Tree.isNil_of_ne hf]; rfl
+    | masked => simp [maskedOut_code hm]
+    | _ => rfl
 
 theorem proc_code_none (t : Tmpl) (ctx : Ctx) (loc : Env) : (proc codeCfg ctx loc t).ev.none = true := by
   rw [proc_code_ev rfl rfl]; rfl
 
 /-- THE CODE AS IT IS loads every template to what the ideal loader yields. -/
-theorem load_code_ideal (t : Tmpl) : load codeCfg t = idealLoad t := load_ideal t (proc_code_none t {} [])
+theorem load_code_ideal (t : Tmpl) : load codeCfg t = idealLoad t := load_ideal rfl t (proc_code_none t {} [])
 
 /-! ## nested iterators: every generated role evaluates the inner range in its own stack -/
 
@@ -1148,5 +1364,284 @@ theorem fold_append (ctx : Ctx) (var : String) (body : Tmpl) (vs₁ vs₂ : List
   induction vs₁ with
   | nil => simp
   | cons a as ih => simp only [List.cons_append, List.foldr_cons, ih, Out.seq_assoc]
+
+/-! ## include roles -/
+
+theorem inclHdrP_ok {pub : Bool} {ctx : Ctx} {loc : Env} {h : Hdr} {inc : Field} {docs : Tmpl}
+    {i : Info} {cw : Ctx} {ex : List String} (hh : inclHdrP pub ctx loc h inc docs = .ok i cw ex) :
+    ∃ c', procHdr ctx loc h [inc] = .ok i c' ex ∧ hasDoc (ex.headD "") docs = true ∧
+      cw = { D := c'.D, V := if pub then c'.V else c'.V.drop loc.length, U := c'.U,
+             want := some (ex.headD "", i.name) } := by
+  unfold inclHdrP at hh
+  cases hp : procHdr ctx loc h [inc] with
+  | ok i' c' ex' =>
+    simp only [hp] at hh
+    cases hd : hasDoc (ex'.headD "") docs with
+    | true =>
+      rw [hd] at hh
+      simp only [if_true] at hh
+      injection hh with h1 h2 h3
+      subst h1 h3
+      exact ⟨c', rfl, hd, h2.symm⟩
+    | false => rw [hd] at hh; simp at hh
+  | error => simp [hp] at hh
+  | masked => simp [hp] at hh
+  | disabled => simp [hp] at hh
+
+/-- an include role that no iterator generated (no Locals): WHEN the Locals are published is immaterial -/
+theorem inclHdrP_nolocals (ctx : Ctx) (h : Hdr) (inc : Field) (docs : Tmpl) :
+    inclHdrP false ctx [] h inc docs = inclHdrP true ctx [] h inc docs := by
+  unfold inclHdrP
+  cases procHdr ctx [] h [inc] <;> simp
+
+theorem evalKV_keys {ρ : Look} : ∀ {kvs : List (String × Field)} {e : Env}, evalKV ρ kvs = some e →
+    e.map Prod.fst = kvs.map Prod.fst
+  | [], e, h => by simp [evalKV] at h; subst h; rfl
+  | (k, f) :: r, e, h => by
+    simp only [evalKV] at h
+    cases hf : evalField ρ f with
+    | none => simp [hf] at h
+    | some v =>
+      cases hr : evalKV ρ r with
+      | none => simp [hf, hr] at h
+      | some r' =>
+        simp [hf, hr] at h
+        subst h
+        simp [evalKV_keys hr]
+
+theorem lookup_none_of_keys {α : Type} (var : String) : ∀ (e : List (String × α)), (e.all fun kv => kv.1 != var) = true →
+    ∀ (e' : Env), e'.map Prod.fst = e.map Prod.fst → lookup e' var = none
+  | [], _, e', h => by cases e' <;> simp_all [lookup, Assoc.get]
+  | (k, a) :: r, hall, e', h => by
+    cases e' with
+    | nil => simp at h
+    | cons kv r' =>
+      obtain ⟨k', v'⟩ := kv
+      simp only [List.map_cons, List.cons.injEq] at h
+      simp only [List.all_cons, Bool.and_eq_true] at hall
+      have hk : k' = k := h.1
+      subst hk
+      have hne : (k' == var) = false := by simpa using hall.1
+      simp only [lookup, Assoc.get, hne, Bool.false_eq_true, if_false]
+      exact lookup_none_of_keys var r hall.2 r' h.2
+
+theorem lookup_append_none {a : Env} {k : String} (b : Env) (h : lookup a k = none) : lookup (a ++ b) k = lookup b k := by
+  induction a with
+  | nil => rfl
+  | cons kv rest ih =>
+    obtain ⟨k', v'⟩ := kv
+    simp only [lookup, Assoc.get, List.cons_append] at h ⊢
+    split
+    · rename_i hk; simp [hk] at h
+    · rename_i hk; simp only [hk] at h; exact ih h
+
+/-- everything one role header does to the stack, spelled out -/
+theorem procHdr_ok_full {ctx : Ctx} {loc : Env} {h : Hdr} {x : List Field} {i : Info} {c' : Ctx} {ex : List String}
+    (hh : procHdr ctx loc h x = .ok i c' ex) :
+    ∃ d v', v'.map Prod.fst = h.vars.map Prod.fst ∧
+      c' = { D := d ++ ctx.D, V := (loc ++ v') ++ ctx.V, U := h.uvars ++ ctx.U } ∧
+      i.stack = c'.U ++ c'.V ++ c'.D := by
+  simp only [procHdr] at hh
+  cases hen : evalField (ctx.look loc) h.enabled with
+  | none => simp [hen] at hh
+  | some en =>
+    simp only [hen] at hh
+    cases htr : truthy en with
+    | false => simp [htr] at hh
+    | true =>
+      simp only [htr, Bool.not_true, Bool.false_eq_true, if_false] at hh
+      split at hh
+      · simp at hh
+      · rename_i d hd
+        split at hh
+        · simp at hh
+        · rename_i v' hv
+          split at hh
+          · injection hh with hi hc hx
+            subst hi hc
+            exact ⟨d, v', evalKV_keys hv, rfl, rfl⟩
+          · simp at hh
+
+/-- A role header that gives `var` no nearer value hands the binding on, and the role itself reads it. -/
+theorem procHdr_keeps {ctx : Ctx} {loc : Env} {h : Hdr} {x : List Field} {i : Info} {c' : Ctx} {ex : List String}
+    (hh : procHdr ctx loc h x = .ok i c' ex) (var v : String) (hk : hdrKeeps var h = true)
+    (hb : ctx.binds var v) (hl : lookup loc var = none ∨ lookup loc var = some v) :
+    c'.binds var v ∧ lookup i.stack var = some v := by
+  obtain ⟨d, v', hkeys, hc, hst⟩ := procHdr_ok_full hh
+  simp only [hdrKeeps, Bool.and_eq_true] at hk
+  have hu : lookup (h.uvars ++ ctx.U) var = none := by
+    rw [lookup_append_none _ (lookup_none_of_keys var h.uvars hk.2 h.uvars rfl)]; exact hb.1
+  have hv' : lookup v' var = none := lookup_none_of_keys var h.vars hk.1 v' hkeys
+  have hV : lookup ((loc ++ v') ++ ctx.V) var = some v := by
+    rw [List.append_assoc]
+    rcases hl with hl | hl
+    · rw [lookup_append_none _ hl, lookup_append_none _ hv']; exact hb.2
+    · exact lookup_append_some _ hl
+  have hcU : c'.U = h.uvars ++ ctx.U := by rw [hc]
+  have hcV : c'.V = (loc ++ v') ++ ctx.V := by rw [hc]
+  refine ⟨⟨by rw [hcU]; exact hu, by rw [hcV]; exact hV⟩, ?_⟩
+  rw [hst, hcU, hcV, List.append_assoc, lookup_append_none _ hu]
+  exact lookup_append_some _ hV
+
+/-- An include site that gives `var` no nearer value hands the binding on to the included documents —
+    whether or not its Locals are published. -/
+theorem inclHdrP_keeps {pub : Bool} {ctx : Ctx} {loc : Env} {h : Hdr} {inc : Field} {docs : Tmpl}
+    {i : Info} {cw : Ctx} {ex : List String} (hh : inclHdrP pub ctx loc h inc docs = .ok i cw ex)
+    (var v : String) (hk : hdrKeeps var h = true) (hb : ctx.binds var v)
+    (hl : lookup loc var = none ∨ lookup loc var = some v) : cw.binds var v := by
+  obtain ⟨c', hp, _, hcw⟩ := inclHdrP_ok hh
+  have hkeep := (procHdr_keeps hp var v hk hb hl).1
+  obtain ⟨d, v', hkeys, hc, _⟩ := procHdr_ok_full hp
+  cases pub with
+  | true => rw [hcw]; exact hkeep
+  | false =>
+    simp only [hdrKeeps, Bool.and_eq_true] at hk
+    have hv' : lookup v' var = none := lookup_none_of_keys var h.vars hk.1 v' hkeys
+    have hV : c'.V = (loc ++ v') ++ ctx.V := by rw [hc]
+    rw [hcw]
+    refine ⟨hkeep.1, ?_⟩
+    simp only [Bool.false_eq_true, if_false, hV, List.append_assoc, List.drop_left]
+    rw [lookup_append_none _ hv']; exact hb.2
+
+/-- PUBLISHED BEFORE THE SWAP, the iteration variable an include role was generated with is bound in
+    the stack the included documents are read in (unless a user variable overrides it). -/
+theorem inclHdrP_binds {ctx : Ctx} {loc : Env} {h : Hdr} {inc : Field} {docs : Tmpl}
+    {i : Info} {cw : Ctx} {ex : List String} (hh : inclHdrP true ctx loc h inc docs = .ok i cw ex)
+    (var v : String) (hl : lookup loc var = some v) (hu : lookup (h.uvars ++ ctx.U) var = none) : cw.binds var v := by
+  obtain ⟨c', hp, _, hcw⟩ := inclHdrP_ok hh
+  obtain ⟨d, v', _, hc, _⟩ := procHdr_ok_full hp
+  rw [hcw, hc]
+  refine ⟨hu, ?_⟩
+  simp only [if_true, List.append_assoc]
+  exact lookup_append_some _ hl
+
+theorem Tree.allInfos_append (a b : Tree) : (a ++ b).allInfos = a.allInfos ++ b.allInfos := by
+  induction a with
+  | nil => rfl
+  | agg i k n _ ihn => simp [Tree.allInfos, ihn]
+  | task i x c n ihn => simp [Tree.allInfos, ihn]
+  | call i x c n ihn => simp [Tree.allInfos, ihn]
+  | iter k n _ ihn => simp [Tree.allInfos, ihn]
+
+theorem hdrKeeps_name (var : String) (h : Hdr) (n : Field) : hdrKeeps var { h with name := n } = hdrKeeps var h := rfl
+
+/-- EVERY DEPTH: below a stack that binds `var` to `v`, every role the load keeps — through aggregators,
+    iterators, include roles and the documents they load — reads `v` under that name, as long as no
+    role in between gives the name a nearer value (`noRebind`). For every configuration. -/
+theorem proc_keeps (var v : String) (t : Tmpl) : ∀ (ctx : Ctx) (loc : Env), noRebind var t = true → ctx.binds var v →
+    (lookup loc var = none ∨ lookup loc var = some v) →
+    ∀ i ∈ (proc cfg ctx loc t).f.allInfos, lookup i.stack var = some v := by
+  have hagg : ∀ (i : Info) (k : Out), lookup i.stack var = some v →
+      (∀ j ∈ k.f.allInfos, lookup j.stack var = some v) →
+      ∀ j ∈ (aggOut i k).f.allInfos, lookup j.stack var = some v := by
+    intro i k hi hk j hj
+    by_cases hf : k.f = .nil
+    · have : aggOut i k = ⟨k.err, .nil, k.ev⟩ := by unfold aggOut; rw [hf]
+      simp [this, Tree.allInfos] at hj
+    · rw [aggOut_of_ne i k hf] at hj
+      simp only [Tree.allInfos, List.append_nil, List.mem_cons] at hj
+      rcases hj with rfl | hj
+      · exact hi
+      · exact hk j hj
+  have hleaf : ∀ (mk : Info → List String → Tree) (ctx : Ctx) (loc : Env) (h : Hdr) (x : List Field),
+      (∀ i ex, (mk i ex).allInfos = [i]) → hdrKeeps var h = true → ctx.binds var v →
+      (lookup loc var = none ∨ lookup loc var = some v) →
+      ∀ j ∈ (leafOut cfg mk (procHdr ctx loc h x)).f.allInfos, lookup j.stack var = some v := by
+    intro mk ctx loc h x hmk hk hb hl j hj
+    cases hh : procHdr ctx loc h x with
+    | ok i c' ex =>
+      simp only [hh, leafOut, hmk, List.mem_singleton] at hj
+      subst hj
+      exact (procHdr_keeps hh var v hk hb hl).2
+    | error => simp [hh, leafOut, Tree.allInfos] at hj
+    | masked => simp [hh, leafOut, Tree.allInfos] at hj
+    | disabled => simp [hh, leafOut, Out.empty, Tree.allInfos] at hj
+  induction t with
+  | nil => intro ctx loc _ _ _ i hi; simp [proc, Out.empty, Tree.allInfos] at hi
+  | agg h kids nx ihk ihn =>
+    intro ctx loc hn hb hl j hj
+    simp only [noRebind, Bool.and_eq_true] at hn
+    simp only [proc, Out.seq_f, Tree.allInfos_append, List.mem_append] at hj
+    rcases hj with hj | hj
+    · cases hh : procHdr ctx loc h [] with
+      | ok i c' ex =>
+        rw [hh] at hj
+        have hp := procHdr_keeps hh var v hn.1.1 hb hl
+        exact hagg i _ hp.2 (ihk c' [] hn.1.2 hp.1 (Or.inl rfl)) j hj
+      | error => simp [hh, Tree.allInfos] at hj
+      | masked => simp [hh, Tree.allInfos] at hj
+      | disabled => simp [hh, Out.empty, Tree.allInfos] at hj
+    · exact ihn ctx loc hn.2 hb hl j hj
+  | task h x c nx ihn =>
+    intro ctx loc hn hb hl j hj
+    simp only [noRebind, Bool.and_eq_true] at hn
+    simp only [proc, Out.seq_f, Tree.allInfos_append, List.mem_append] at hj
+    rcases hj with hj | hj
+    · exact hleaf _ ctx loc h x (by intros; rfl) hn.1 hb hl j hj
+    · exact ihn ctx loc hn.2 hb hl j hj
+  | call h x c nx ihn =>
+    intro ctx loc hn hb hl j hj
+    simp only [noRebind, Bool.and_eq_true] at hn
+    simp only [proc, Out.seq_f, Tree.allInfos_append, List.mem_append] at hj
+    rcases hj with hj | hj
+    · exact hleaf _ ctx loc h x (by intros; rfl) hn.1 hb hl j hj
+    · exact ihn ctx loc hn.2 hb hl j hj
+  | iter r w b nx ihb ihn =>
+    intro ctx loc hn hb hl j hj
+    simp only [noRebind, Bool.and_eq_true] at hn
+    simp only [proc, Out.seq_f, Tree.allInfos_append, List.mem_append] at hj
+    rcases hj with hj | hj
+    · cases hr : evalRange ctx.lookRange r with
+      | none => simp [hr, Tree.allInfos] at hj
+      | some vals =>
+        rw [hr] at hj
+        have hwv : (w == var) = false := by simpa using hn.1.1
+        have hloc : ∀ e : String, lookup [(w, e)] var = none := by
+          intro e; simp [lookup, Assoc.get, hwv]
+        have hfold : ∀ vs : List String, ∀ j ∈ (vs.foldr (fun e acc => (proc cfg ctx [(w, e)] b).seq acc) Out.empty).f.allInfos,
+            lookup j.stack var = some v := by
+          intro vs
+          induction vs with
+          | nil => intro j hj; simp [Out.empty, Tree.allInfos] at hj
+          | cons a as iha =>
+            intro j hj
+            simp only [List.foldr_cons, Out.seq_f, Tree.allInfos_append, List.mem_append] at hj
+            rcases hj with hj | hj
+            · exact ihb ctx _ hn.1.2 hb (Or.inl (hloc a)) j hj
+            · exact iha j hj
+        simp only [iterOut_f] at hj
+        split at hj
+        · simp only [Tree.allInfos, List.append_nil] at hj
+          exact hfold vals j hj
+        · simp [Tree.allInfos] at hj
+    · exact ihn ctx loc hn.2 hb hl j hj
+  | incl h inc docs nx ihd ihn =>
+    intro ctx loc hn hb hl j hj
+    simp only [noRebind, Bool.and_eq_true] at hn
+    simp only [proc, Out.seq_f, Tree.allInfos_append, List.mem_append] at hj
+    rcases hj with hj | hj
+    · cases hh : inclHdr cfg ctx loc h inc docs with
+      | ok i cw ex =>
+        rw [hh] at hj
+        exact ihd cw [] hn.1.2 (inclHdrP_keeps hh var v hn.1.1 hb hl) (Or.inl rfl) j hj
+      | error => simp [hh, Tree.allInfos] at hj
+      | masked => simp [hh, Tree.allInfos] at hj
+      | disabled => simp [hh, Out.empty, Tree.allInfos] at hj
+    · exact ihn ctx loc hn.2 hb hl j hj
+  | doc f h kids nx ihk ihn =>
+    intro ctx loc hn hb hl j hj
+    simp only [noRebind, Bool.and_eq_true] at hn
+    simp only [proc, Out.seq_f, Tree.allInfos_append, List.mem_append] at hj
+    rcases hj with hj | hj
+    · cases hh : docHdr ctx f h with
+      | ok i c' ex =>
+        rw [hh] at hj
+        obtain ⟨nm, _, hp'⟩ := docHdr_ok hh
+        have hp := procHdr_keeps hp' var v (by rw [hdrKeeps_name]; exact hn.1.1) hb (Or.inl rfl)
+        exact hagg i _ hp.2 (ihk c' [] hn.1.2 hp.1 (Or.inl rfl)) j hj
+      | error => simp [hh, Tree.allInfos] at hj
+      | masked => simp [hh, Tree.allInfos] at hj
+      | disabled => simp [hh, Out.empty, Tree.allInfos] at hj
+    · exact ihn ctx loc hn.2 hb hl j hj
 
 end Load
